@@ -590,6 +590,47 @@ pub fn describe_glyph(g: &[u8]) -> GlyphDesc {
     }
 }
 
+
+/// Length of a glyf entry once hinting instructions are removed the way a PDF subsetter may do
+/// it: simple glyph — instruction bytes dropped, `instructionLength` kept as 0; composite with
+/// WE_HAVE_INSTRUCTIONS — cut after the last component record.  Used only to *diagnose*
+/// loca problems (odd offsets in the short format).
+pub fn stripped_len(g: &[u8]) -> usize {
+    if g.len() < 12 {
+        return g.len();
+    }
+    let nc = bei16(g, 0).unwrap();
+    if nc >= 0 {
+        let o = 10 + 2 * nc as usize;
+        match be16(g, o) {
+            Some(il) if o + 2 + il as usize <= g.len() => g.len() - il as usize,
+            _ => g.len(),
+        }
+    } else {
+        let mut o = 10;
+        loop {
+            let Some(flags) = be16(g, o) else { return g.len() };
+            o += 4;
+            o += if flags & 1 != 0 { 4 } else { 2 };
+            o += if flags & 0x80 != 0 {
+                8
+            } else if flags & 0x40 != 0 {
+                4
+            } else if flags & 0x08 != 0 {
+                2
+            } else {
+                0
+            };
+            if o > g.len() {
+                return g.len();
+            }
+            if flags & 0x20 == 0 {
+                return if flags & 0x0100 != 0 { o } else { g.len() };
+            }
+        }
+    }
+}
+
 // ------------------------------------------------------------------------------------------
 // A small TrueType writer for generated fonts
 // ------------------------------------------------------------------------------------------
